@@ -73,6 +73,11 @@ func collectFields(reqCtx *OperationContext, selSet ast.SelectionSet, satisfies 
 			if _, seen := visited[fragmentName]; seen {
 				continue
 			}
+			// a spread that is skipped does not count as a visit: the same fragment may be
+			// spread again, without @skip, later in the selection set
+			if !shouldIncludeNode(sel.Directives, reqCtx.Variables) {
+				continue
+			}
 			visited[fragmentName] = true
 
 			fragment := reqCtx.Doc.Fragments.ForName(fragmentName)
@@ -85,9 +90,6 @@ func collectFields(reqCtx *OperationContext, selSet ast.SelectionSet, satisfies 
 				continue
 			}
 
-			if !shouldIncludeNode(sel.Directives, reqCtx.Variables) {
-				continue
-			}
 			shouldDefer, label := deferrable(sel.Directives, reqCtx.Variables)
 
 			for _, childField := range collectFields(reqCtx, fragment.SelectionSet, satisfies, visited) {
